@@ -19,7 +19,7 @@ RULE = ("generated coolers (enum- and integer-encoded chromosome column, extra b
         "columns) or (cooler, pixel subset, bin-table form)")
 ASSUMPTIONS = ["raw h5py reads of the stored tables are the oracle", "bounds outside [-n, n] are outside the domain"]
 MIN_NONTRIVIAL = {"quick": 3000, "thorough": 30000}
-REQUIRED_FEATURES = ["encoding:enum", "encoding:int", "selector:chroms", "selector:bins", "selector:pixels", "cols:single",
+REQUIRED_FEATURES = ["range:out-of-range", "range:scalar-out-of-range:refused", "encoding:enum", "encoding:int", "selector:chroms", "selector:bins", "selector:pixels", "cols:single",
                      "cols:list", "range:negative", "range:scalar", "range:empty", "annotate:bins-dataframe",
                      "annotate:bins-selector", "annotate:bins-partial", "annotate:strategy:minmax",
                      "annotate:strategy:whole", "annotate:shuffled", "annotate:custom-index", "annotate:only-bin1",
@@ -81,6 +81,14 @@ def ranges(rng, n, count):
         if a < n and spell == 4:
             out.append((a, a, a + 1, "scalar"))
             out.append((a - n, a, a + 1, "scalar"))
+    # bounds beyond the table on either side denote what they denote for any Python sequence (F34)
+    for _ in range(max(2, count // 6)):
+        sa = int(rng.integers(-2 * n - 3, 2 * n + 4)) if rng.random() < 0.8 else None
+        sb = int(rng.integers(-2 * n - 3, 2 * n + 4)) if rng.random() < 0.8 else None
+        if (sa is not None and not -n <= sa <= n) or (sb is not None and not -n <= sb <= n):
+            a, b, _ = slice(sa, sb).indices(n)
+            beyond = (sa is not None and sa > n) or (sb is not None and sb > n)
+            out.append((slice(sa, sb), a, max(a, b), "beyond-end" if beyond else "out-of-range"))
     return [r if len(r) == 4 else r + ("plain",) for r in out]
 
 
@@ -107,8 +115,22 @@ def check_selector(c, name, sel, table, default_cols, rng, nranges):
     for (key, a, b, kind) in ranges(rng, n, nranges):
         cs = colsets[int(rng.integers(len(colsets)))]
         s = sel if cs is None else sel[cs]
-        got = s[key]
         want_idx = list(range(a, b))
+        if kind == "beyond-end":
+            # a bound beyond the end of the table: sequences clip it.  One mechanism, one key (known finding F36:
+            # the bound is passed on unclipped; pinned by tests/test_core.py::test_selector1d "FIXME - questionable")
+            c.feature("range:beyond-end")
+            c.ctx.oracle_evals += 1
+            try:
+                got = s[key]
+                okb = list(got.index) == want_idx
+            except Exception:  # noqa
+                okb = False
+            if not okb:
+                c.fail("selector-bound-beyond-end-not-clipped", f"{name}()[{key!r}] on a table of {n} rows is not rows {a}..{b - 1}",
+                       {"n": n, "key": repr(key)})
+            continue
+        got = s[key]
         c.feature(f"selector:{name}", f"range:{kind if b > a else 'empty'}",
                   "cols:default" if cs is None else ("cols:single" if isinstance(cs, str) else "cols:list"))
         if isinstance(cs, str):
@@ -131,6 +153,18 @@ def check_selector(c, name, sel, table, default_cols, rng, nranges):
             return False
         if b > a:
             c.nontrivial(c.cid, name, a, b, repr(cs), repr(key))
+    # a scalar index outside the table selects no row: it is refused, never answered with some other row
+    for bad in (n, -n - 1, n + int(rng.integers(1, 50)), -n - int(rng.integers(2, 50))):
+        c.ctx.oracle_evals += 1
+        try:
+            got = sel[bad]
+        except (IndexError, ValueError, KeyError):
+            c.feature("range:scalar-out-of-range:refused")
+            continue
+        c.fail(f"selector-wrong-rows:{name}:scalar-out-of-range-answered",
+               f"{name}()[{bad}] on a table of {n} rows was answered with rows {list(got.index)[:5]} instead of refused",
+               {"n": n, "got_index": list(got.index)[:10]})
+        return False
     # strided / reversed row ranges: either refused, or exactly the rows Python slicing denotes, in that order
     for _ in range(3):
         a = int(rng.integers(-n - 1, n + 2)); b = int(rng.integers(-n - 1, n + 2))
